@@ -29,7 +29,7 @@ def step (c : CS) (l : Line) : CS :=
   match l.kind with
   | "hist" => { c with inFail := false }
   | "enter" =>
-      let c := branch c s!"enter/{l.str "route"}"
+      let c := branch c s!"enter/{l.str "route"}/cc={(l.get? "cc").getD "-"}"
       let c := if l.nat "rc" ≠ Gen.TPM_RC_FAILURE ∨ l.nat "len" ≠ 10 then
                  mism c s!"SPEC[storefault-not-failure] command whose state change could not be stored answered rc={l.nat "rc"} len={l.nat "len"}" else c
       let c := if l.nat "infail" = 0 then mism c "SPEC[not-in-failure-mode] TPM not in failure mode after refused commit" else c
